@@ -154,7 +154,7 @@ class IncrementalOptimizer(OptBase):
 
     def cases(self, tier):
         out = []
-        objs = ["makespan", "flowtime", "utilization_max", "indicator_min_bounded", "indicator_max"]
+        objs = ["makespan", "flowtime", "utilization_max", "indicator_min_bounded", "indicator_max", "two_weighted_min", "two_weighted_max"]
         if tier == "thorough":
             objs += ["priorities", "start_latest", "greatest_start"]
         for obj in objs:
@@ -184,6 +184,15 @@ class IncrementalOptimizer(OptBase):
             obj = ps.ObjectiveTasksStartLatest()
         elif o == "greatest_start":
             obj = ps.ObjectiveMinimizeGreatestStartTime()
+        elif o in ("two_weighted_min", "two_weighted_max"):
+            # several objectives of the same direction with symbolic weights: the loop optimises their weighted sum
+            kind = "minimize" if o.endswith("min") else "maximize"
+            P.assume(P.int("w1") >= 1)
+            P.assume(P.int("w2") >= 1)
+            i1 = ps.IndicatorFromMathExpression(name="i1", expression=t1._start + t2._end)
+            i2 = ps.IndicatorFromMathExpression(name="i2", expression=t2._start)
+            ps.Objective(name="o1", target=i1, weight=P.int("w1"), kind=kind)
+            obj = ps.Objective(name="o2", target=i2, weight=P.int("w2"), kind=kind)
         elif o == "indicator_min_bounded":
             ind = ps.IndicatorFromMathExpression(name="ind", expression=t1._start + t2._end, bounds=(P.int("lb"), P.int("ub")))
             obj = ps.ObjectiveMinimizeIndicator(target=ind, weight=1)
@@ -227,8 +236,11 @@ class IncrementalOptimizer(OptBase):
     def clauses(self, P, ctx, case):
         solver, result, base, variable, kind = ctx["solver"], ctx["result"], ctx["base"], ctx["variable"], ctx["kind"]
         out = []
-        want_kind = "max" if case["obj"] in ("utilization_max", "indicator_max", "start_latest") else "min"
-        out.append(Clause("wiring[direction and target are the declared objective's]", z3.BoolVal(kind == want_kind and variable.eq(T(ctx["obj"]._target))), props=("C07", "C15"), kind="state"))
+        want_kind = "max" if case["obj"] in ("utilization_max", "indicator_max", "start_latest", "two_weighted_max") else "min"
+        if case["obj"].startswith("two_weighted"):
+            out.append(Clause("wiring[direction is the declared objectives']", z3.BoolVal(kind == want_kind), props=("C07", "C15"), kind="state"))
+        else:
+            out.append(Clause("wiring[direction and target are the declared objective's]", z3.BoolVal(kind == want_kind and variable.eq(T(ctx["obj"]._target))), props=("C07", "C15"), kind="state"))
         if not P.symbolic:
             # native run (differential): the real optimiser ran to the end on this instance
             if result is False:
